@@ -60,7 +60,7 @@ def generate() -> None:
 
 EMACS_CHORDS = [("c-k",), ("c-u",), ("escape", "d"), ("c-delete",), ("c-w",), ("escape", "c-h"), ("c-y",),
                 ("escape", "y"), ("c-f",), ("c-b",), ("c-@",), ("escape", "w"), ("s-left",), ("s-right",),
-                ("c-h",), ("escape",)]
+                ("c-h",), ("escape",), ("delete",)]
 VI_CHORDS = [("x",), ("X",), ("s",), ("D",), ("C",), ("d", "d"), ("y", "y"), ("Y",), ("c", "c"), ("S",), ("p",),
              ("P",), ('"', "<any>", "p"), ('"', "<any>", "P"), ("v",), ("V",), ("c-v",)]
 
